@@ -81,6 +81,11 @@ claim("C15", "E1 model",
       "Grammars with context providers (with_ctx, map_ctx, then_with_ctx, ignore_with_ctx) and readers (configure(seq), configure(exactly), try_configure with an error case, probes), exhaustive small + hand-listed families (length-prefixed incl. a^n b^n, delimiter-echo, indentation-like, nested/shadowing providers, providers in repetitions/choices/recursion) + random: every observation must equal the value supplied by the nearest enclosing provider for this attempt; configured parsers must accept exactly what the reference semantics of the static configuration accepts.",
       MODEL_NOTE, "DESIGN §5 C15")
 
+claim("C11", "E2 differential + E1 model + E6 process",
+      "runtime monitoring: differential monitor between real executions (memoized() at every subset of nodes vs plain grammar), reference-model monitor of each memoized run, statically typed placements, and a child-process monitor with a logical step budget for left-recursive grammars",
+      "memoized() at every subset of nodes of every small grammar (sampled subsets, doubly memoized nodes for random ones) must leave acceptance, outputs and the full error list identical to the plain grammar; statically typed zero-sized / nested / adjacent / cloned memoized parsers against their plain formulation; five left-recursive shapes with a memoized recursive step on all short inputs must return a ParseResult within 10^7 logical steps in a child process (a crash or stack overflow kills only the child and is reported).",
+      MODEL_NOTE + " Known finding D6 (memo key = position + address) is reported as KNOWN-FINDING by signature; for left recursion only termination is judged.", "DESIGN §5 C11")
+
 NOT_CLAIMED = {}
 
 
